@@ -48,10 +48,16 @@ static void sb_add(sb_t *b, const char *fmt, ...) {
   memcpy(b->p + b->len, src, n + 1); b->len += n;
   free(big);
 }
+static void sb_hex(sb_t *b, const char *s, size_t n) {  /* n bytes as 2n hex digits, without a vsnprintf per byte */
+  static const char H[] = "0123456789abcdef";
+  if (b->len + 2 * n + 1 > b->cap) { b->cap = (b->len + 2 * n + 1) * 2 + 64; b->p = realloc(b->p, b->cap); }
+  for (size_t i = 0; i < n; i++) { b->p[b->len++] = H[((unsigned char)s[i]) >> 4]; b->p[b->len++] = H[((unsigned char)s[i]) & 15]; }
+  b->p[b->len] = 0;
+}
 static void sb_enc(sb_t *b, const char *s) {          /* hex-encode, "-" = NULL */
   if (!s) { sb_add(b, "-"); return; }
   sb_add(b, "s");
-  for (; *s; s++) sb_add(b, "%02x", (unsigned char)*s);
+  sb_hex(b, s, strlen(s));
 }
 static char *dec(const char *t) {                      /* inverse of sb_enc; NULL for "-" */
   if (!strcmp(t, "-") || t[0] != 's') return NULL;
@@ -362,7 +368,8 @@ static void sb_xml_escaped(sb_t *b, const char *v) {
   for (; *v; v++) switch (*v) {
     case '<': sb_add(b, "&lt;"); break; case '>': sb_add(b, "&gt;"); break; case '&': sb_add(b, "&amp;"); break;
     case '"': sb_add(b, "&quot;"); break; case '\n': sb_add(b, "&#10;"); break; case '\r': sb_add(b, "&#13;"); break;
-    case '\t': sb_add(b, "&#9;"); break; default: sb_add(b, "%c", *v); break;
+    case '\t': sb_add(b, "&#9;"); break;
+    default: if (b->len + 2 > b->cap) { b->cap = (b->len + 2) * 2 + 64; b->p = realloc(b->p, b->cap); } b->p[b->len++] = *v; b->p[b->len] = 0; break;
   }
 }
 static void xrender(sb_t *b, const xdoc_t *d) {
@@ -428,7 +435,7 @@ static void xml_tie(hwloc_topology_diff_t d, const char *ref, uint64_t mseed) {
   if (xr < 0 || !buf) { st_xexp_einval++; sb_add(&c, "ret=%d", xr); out2(l.p, c.p); free(l.p); free(c.p); return; }
   if (xscan(buf, &doc) < 0 || (size_t)len != strlen(buf) + 1) { sb_add(&c, "ret=0 unscannable"); out2(l.p, c.p); free(l.p); free(c.p); xdoc_free(&doc); hwloc_free_xmlbuffer(NULL, buf); return; }
   sb_add(&c, "ret=0 "); sb_xdoc(&c, &doc);
-  if (!g_be_exp) { sb_add(&c, " bytes=s"); for (const char *p = buf; *p; p++) sb_add(&c, "%02x", (unsigned char)*p); }
+  if (!g_be_exp) { sb_add(&c, " bytes=s"); sb_hex(&c, buf, strlen(buf)); }
   out2(l.p, c.p); free(l.p); free(c.p);
   xload_emit(buf, (size_t)len - 1, &doc, 0);
   hwloc_free_xmlbuffer(NULL, buf);
